@@ -48,7 +48,7 @@ def fn_script(ctx, fnpath, depth=0):
 
 
 def unique_callers(ctx, r, key, target, want, why=None):
-    cs = set(ctx.cg.callers(target))
+    cs = ctx.callers(target)
     return r.check(key, cs == set(want), ctx.site(target) if ctx.has_fn(target) else None, built=sorted(cs), expected=sorted(want), why=why or 'who-may-call')
 
 
